@@ -42,10 +42,11 @@ theorem c16_str_validate_sound (fee : Int) (h : streamParamsValid fee = true) : 
 
 /-- The stored parameters of the enterprise, WRKChain, BEACON and stream modules satisfy their
 validity rules in every state of every run (any history of transactions, nested messages,
-governance proposals and block hooks). -/
-theorem c16_params_always_valid (g : GenCfg) (hg : GenParamsValid g) (s : State) (h : Reachable g s) :
+governance proposals and block hooks).  (`GenGrantsOK`: the genesis document contains no authz grant given by a module
+account of the application — such a grant would let its grantee act as that module.) -/
+theorem c16_params_always_valid (g : GenCfg) (hg : GenParamsValid g) (hgg : GenGrantsOK g) (s : State) (h : Reachable g s) :
     EntSpec s.ent.params ∧ RegSpec s.wrk.params ∧ RegSpec s.bcn.params ∧ StrSpec s.str.fee := by
-  have hp := paramsValid_reachable g hg s h
+  have hp := paramsValid_reachable g hg hgg s h
   exact ⟨c16_ent_validate_sound _ hp.ent, c16_reg_validate_sound _ hp.wrk, c16_reg_validate_sound _ hp.bcn,
     c16_str_validate_sound _ hp.str⟩
 
